@@ -648,6 +648,35 @@ def run_scalar_kinds(ctx):
                 ctx.violation('wrapper:' + form, cfg, 'raises:' + type(e).__name__, leaf=lname, message=str(e)[:200])
 
 
+def run_functional_across_fields(ctx):
+    """(f o A)(x) = f(A(x)) for a functional on a complex space after an operator from a real space (and the other way round):
+    the value, and a range that contains it."""
+    rng = ctx.rng('functional-across-fields')
+    c3, r3 = odl.cn(3), odl.rn(3)
+    xr = r3.element(rng.normal(size=3))
+    zc = c3.element(rng.normal(size=3) + 1j * rng.normal(size=3))
+    w = c3.element(rng.normal(size=3) + 1j * rng.normal(size=3))
+    cases = [('L2NormSquared(cn) o ComplexEmbedding(rn)', lambda: S.L2NormSquared(c3) * odl.ComplexEmbedding(r3), xr, lambda a: np.sum(np.abs(a) ** 2), 'r->c->C'),
+             ('L2Norm(cn) o ComplexEmbedding(rn)', lambda: S.L2Norm(c3) * odl.ComplexEmbedding(r3), xr, lambda a: np.sqrt(np.sum(np.abs(a) ** 2)), 'r->c->C'),
+             ('InnerProduct(cn) o ComplexEmbedding(rn)', lambda: odl.InnerProductOperator(w) * odl.ComplexEmbedding(r3), xr, lambda a: np.sum(a * np.conj(np.asarray(w))), 'r->c->C'),
+             ('L2NormSquared(rn) o RealPart(cn)', lambda: S.L2NormSquared(r3) * odl.RealPart(c3), zc, lambda a: np.sum(a.real ** 2), 'c->r->R'),
+             ('L1Norm(rn) o ComplexModulus(cn)', lambda: S.L1Norm(r3) * odl.ComplexModulus(c3), zc, lambda a: np.sum(np.abs(a)), 'c->r->R')]
+    for name, mk, pt, ref, kind in cases:
+        ctx.ev('reference-interpreter')
+        ctx.case('functional-across-fields;' + name, 0)
+        cfg = 'fields;' + kind
+        try:
+            F = mk()
+            got = F(pt)
+            want = ref(np.asarray(pt))
+            if not np.isclose(got, want, rtol=1e-12, atol=1e-12):
+                ctx.violation('FunctionalComp', cfg, 'value', expr=name, got=complex(got), ref=complex(want))
+            if got not in F.range:
+                ctx.violation('FunctionalComp', cfg, 'result-not-in-range', expr=name)
+        except Exception as e:
+            ctx.violation('FunctionalComp', cfg, 'raises:' + type(e).__name__, expr=name, message=str(e)[:200])
+
+
 def run(ctx):
     ctx.note('rule', 'one case = one expression tree (text form is the key); depth-2 trees: every ordered pair of the %d '
                      'combinators x {linear, nonlinear, functional} leaves x {R, C} x scalar classes; deeper trees seeded; '
@@ -671,6 +700,7 @@ def run(ctx):
     if ctx.shard == 0:
         run_scalar_kinds(ctx)
         run_functional_overloads(ctx)
+        run_functional_across_fields(ctx)
     cov.disarm()
     n_exec, n_hit, unreached = cov.report()
     ctx.note('line_coverage', {'executable': n_exec, 'hit': n_hit})
